@@ -138,3 +138,6 @@ Definition msg_case (c : list str * list str * str * str * str * list (str * str
   opt_pair_eqb (Some (msg_sender sender)) (Some frm) && pairs_eqb (parse_multi_recipients_list to) to'
   && str_eqb bp plain && str_eqb bh html
   && pairs_eqb (map (fun a => let '(l, sh, m, k) := a in msg_attachment l sh m k) atts) atts'.
+
+(* the Date field of parse_email_message: parsedate_to_datetime(...).isoformat() (recorded; None = it raised) *)
+Definition date_case (c : option str * str) : bool := str_eqb (date_field (fst c)) (snd c).
